@@ -196,11 +196,30 @@ class Sim13:
         self.live[name] = op
         info = {"name": name, "identity": ident, "inc": op.n, "who": op.session.identity, "priority": int(spec.get("priority", 0)),
                 "lifetime": int(spec.get("lifetime", 60)), "t_start": self.now(), "t_stop_req": None, "t_stopped": None,
-                "t_killed": None, "result": None}
+                "t_killed": None, "result": None, "t_exit": None, "exit": None, "exit_site": None}
         self.incs.append(info)
         self.by_inc[op.n] = info
         await op.start()
         self.mark("start", op=name, inc=op.n)
+
+        def _done(task: Any, info: dict = info, op: Any = op) -> None:
+            info["t_exit"] = self.now()
+            if op.killed or task.cancelled():
+                info["exit"] = "cancelled"
+                return
+            exc = task.exception()
+            if exc is None:
+                info["exit"] = "returned"
+                return
+            site = None
+            tb = exc.__traceback__
+            while tb is not None:
+                if "/kopf/" in tb.tb_frame.f_code.co_filename:
+                    site = f"{tb.tb_frame.f_code.co_filename.split('/kopf/')[-1]}:{tb.tb_frame.f_code.co_name}"
+                tb = tb.tb_next
+            info["exit"] = f"{type(exc).__name__}: {exc}"
+            info["exit_site"] = site
+        op.task.add_done_callback(_done)
 
     def stop_op(self, name: str) -> None:
         op = self.live.get(name)
@@ -361,6 +380,9 @@ def installed(sim: Sim13) -> Iterator[None]:
         await o_turn(self, state)
         ent = sim.toggle_set.get(id(self))
         log("turn", self, bool(state), ent[1] if ent else None)
+        rec = current.get(asyncio.current_task())
+        if rec is not None and cfs.get(asyncio.current_task()) is self:
+            rec["turned"].append(bool(state))
 
     async def make_toggle(self: Any, val: bool = False, *, name: str | None = None) -> Any:
         t = await o_make(self, val, name=name)
@@ -382,6 +404,7 @@ def installed(sim: Sim13) -> Iterator[None]:
     o_ppe, o_clean, o_touch, o_aiotime = peering.process_peering_event, peering.clean, peering.touch, peering.aiotime
     o_random, o_asyncio = peering.random, peering.asyncio
     current: dict[Any, dict] = {}      # task -> call record
+    cfs: dict[Any, Any] = {}           # task -> the call's conflicts_found toggle
 
     def cur() -> dict | None:
         return current.get(asyncio.current_task())
@@ -394,11 +417,12 @@ def installed(sim: Sim13) -> Iterator[None]:
                "t0": ticks(sim.now()), "rv": body["metadata"].get("resourceVersion"), "etype": raw.get("type"),
                "status": copy.deepcopy(body.get("status", {})), "toggle_before": None if cf is None else cf.is_on(),
                "autoclean": kw.get("autoclean", True), "cleaned": None, "now2": None, "delays": None, "unslept": "n/a",
-               "touched": False, "error": None, "toggle_after": None, "t_toggle": None, "finished": False}
+               "touched": False, "error": None, "toggle_after": None, "turned": [], "slept": None, "finished": False}
         if sim.inc() not in sim.dead:
             sim.pcalls.append(rec)
         task = asyncio.current_task()
         current[task] = rec
+        cfs[task] = cf
         try:
             await o_ppe(**kw)
             rec["finished"] = True
@@ -410,9 +434,8 @@ def installed(sim: Sim13) -> Iterator[None]:
             raise
         finally:
             current.pop(task, None)
+            cfs.pop(task, None)
             rec["t1"] = ticks(sim.now())
-            if rec["toggle_after"] is None and cf is not None:
-                rec["toggle_after"] = cf.is_on()
 
     async def clean(**kw: Any) -> None:
         rec = cur()
@@ -434,15 +457,14 @@ def installed(sim: Sim13) -> Iterator[None]:
             ds = list(delays) if not isinstance(delays, (int, float)) and delays is not None else [delays]
             rec["now2"] = ticks(sim.now())
             rec["delays"] = [ticks(d) for d in ds]
-            cf_state = rec.get("_cf")
+            cf = cfs.get(asyncio.current_task())
+            rec["toggle_after"] = None if cf is None else cf.is_on()   # right after the toggle section
+        t_before = sim.now()
         out = await o_aiotime.sleep(delays, wakeup=wakeup)
         if rec is not None:
             rec["unslept"] = None if out is None else "interrupted"
+            rec["slept"] = ticks(sim.now() - t_before)
         return out
-
-    # the toggle state right when the sleep starts = after the toggle section of this call
-    async def a_sleep_with_toggle(delays: Any, wakeup: Any = None) -> Any:
-        return await a_sleep(delays, wakeup)
 
     last_randint: dict[Any, int] = {}
 
@@ -523,6 +545,253 @@ def run_history(sc: dict, wall_limit: float = 60.0) -> dict:
         return tr
 
 
+
+# =================================================================================================
+# Direct calls of the real `process_peering_event` / `keepalive` / `touch` (no operator around them)
+ERR_ENUM = {"TypeError": "type-error", "ValueError": "value-error", "ParseError": "value-error",
+            "AttributeError": "attribute-error", "KeyError": "key-error", "OverflowError": "overflow-error"}
+
+
+def _iso(t_ticks: int, fmt: str = "full") -> str:
+    import datetime
+    from ..sim import simloop
+    dt = simloop.EPOCH + datetime.timedelta(microseconds=t_ticks * (1_000_000 // TPS))
+    if fmt == "naive":
+        return dt.replace(tzinfo=None).isoformat()
+    if fmt == "z":
+        return dt.replace(tzinfo=None).isoformat() + "Z"
+    if fmt == "space":
+        return dt.replace(tzinfo=None).isoformat(sep=" ") + "+00:00"
+    return dt.isoformat()
+
+
+def build_status(case: dict, now_ticks: int) -> Any:
+    """Materialise a case's status at the moment of the call (`lastseen` is given relative to now)."""
+    mode = case.get("status_mode", "dict")
+    if mode == "missing":
+        return "__missing__"
+    if mode != "dict":
+        return {"none": None, "list": [], "str": "oops", "int": 5}[mode]
+    st: dict[str, Any] = {}
+    for ident, rec in case["records"]:
+        if isinstance(rec, dict):
+            rec = dict(rec)
+            ls = rec.pop("lastseen", "__absent__")
+            if isinstance(ls, dict) and "age" in ls:
+                rec["lastseen"] = _iso(now_ticks - int(ls["age"]), ls.get("fmt", "full"))
+            elif isinstance(ls, dict) and "raw" in ls:
+                rec["lastseen"] = ls["raw"]
+        st[ident] = rec
+    return st
+
+
+def run_direct(batch: dict, wall_limit: float = 60.0) -> dict:
+    from kopf._cogs.aiokits import aiotoggles
+    from kopf._cogs.configs import configuration
+    from kopf._cogs.structs import references
+    from kopf._core.engines import peering
+    from ..sim import simloop
+    results: list[dict] = []
+
+    async def main() -> None:
+        loop = asyncio.get_running_loop()
+        o_patching, o_aiotime = peering.patching, peering.aiotime
+        state: dict[str, Any] = {}
+
+        async def patch_obj(**kw: Any) -> Any:
+            state["patches"].append({"t": ticks(loop.time()), "payload": json.loads(json.dumps(dict(kw["patch"]))),
+                                     "name": kw.get("name"), "by": state.get("by")})
+            await asyncio.sleep(state["latency"] / TPS)
+            return {}, None
+
+        o_clean, o_touch = peering.clean, peering.touch
+
+        async def clean(**kw: Any) -> None:
+            state["by"] = "clean"
+            state["clean_args"].append([str(p.identity) for p in kw["peers"]])
+            try:
+                await o_clean(**kw)
+            finally:
+                state["by"] = None
+
+        async def touch(**kw: Any) -> None:
+            state["by"] = "touch"
+            try:
+                await o_touch(**kw)
+            finally:
+                state["by"] = None
+
+        async def a_sleep(delays: Any, wakeup: Any = None) -> Any:
+            ds = list(delays) if not isinstance(delays, (int, float)) and delays is not None else [delays]
+            state["now2"] = ticks(loop.time())
+            state["delays"] = ds
+            state["toggle_at_sleep"] = None if state["toggle"] is None else state["toggle"].is_on()
+            t0 = loop.time()
+            out = await o_aiotime.sleep(delays, wakeup=wakeup)
+            state["slept"] = ticks(loop.time() - t0)
+            state["unslept"] = out
+            return out
+
+        class RecToggle(aiotoggles.Toggle):
+            async def turn_to(self, st: bool) -> None:  # type: ignore[override]
+                state["turned"].append(bool(st))
+                await super().turn_to(st)
+
+        peering.patching = _Proxy(o_patching, patch_obj=patch_obj)  # type: ignore[assignment]
+        peering.aiotime = _Proxy(o_aiotime, sleep=a_sleep)  # type: ignore[assignment]
+        peering.clean, peering.touch = clean, touch  # type: ignore[assignment]
+        try:
+            for case in batch["cases"]:
+                await asyncio.sleep(case.get("gap", 1) / TPS)
+                settings = configuration.OperatorSettings()
+                settings.peering.name = "default"
+                settings.peering.priority = case["prio"]
+                settings.peering.lifetime = case.get("my_lifetime", 60)
+                now = ticks(loop.time())
+                status = build_status(case, now)
+                body: dict[str, Any] = {"metadata": {"name": "default" if case.get("name_ok", True) else "other"}}
+                if status != "__missing__":
+                    body["status"] = status
+                toggle = None if case["toggle"] is None else RecToggle(bool(case["toggle"]))
+                state.clear()
+                state.update({"patches": [], "clean_args": [], "by": None, "latency": case.get("latency", 1), "now2": None, "delays": None, "turned": [],
+                              "toggle": toggle, "slept": 0, "unslept": "n/a", "toggle_at_sleep": None})
+                pressure = asyncio.Event()
+                waker = None
+                if case.get("interrupt") is not None:
+                    waker = loop.call_later(case["interrupt"] / TPS, pressure.set)
+                err = None
+                try:
+                    await peering.process_peering_event(
+                        raw_event={"type": "MODIFIED", "object": body}, namespace=None,
+                        resource=references.Resource("kopf.dev", "v1", "clusterkopfpeerings", namespaced=False),
+                        identity=peering.Identity(case["me"]), settings=settings, autoclean=case.get("autoclean", True),
+                        stream_pressure=pressure, conflicts_found=toggle)
+                except Exception as e:  # noqa: BLE001
+                    err = ERR_ENUM.get(type(e).__name__, "other:" + type(e).__name__)
+                if waker is not None:
+                    waker.cancel()
+                cleaned: list[str] = []
+                touch_payload = None
+                n_clean = 0
+                clean_ok = True
+                for p in state["patches"]:
+                    stp = (p["payload"].get("status") or {})
+                    if p["by"] == "clean":
+                        cleaned += list(stp.keys())
+                        n_clean += 1
+                        clean_ok = clean_ok and all(v is None for v in stp.values()) and p["name"] == "default"
+                    else:
+                        touch_payload = stp
+                if [x for a in state["clean_args"] for x in a] != cleaned:
+                    clean_ok = False
+                delays = state["delays"]
+                offgrid = False
+                dt: list[int] | None = None
+                if delays is not None:
+                    dt = []
+                    for d in delays:
+                        x = d * TPS
+                        if abs(x - round(x)) > 1e-6:
+                            offgrid = True
+                        dt.append(int(round(x)))
+                results.append({"now": now, "status": status, "abs_status": abstract_status(status) if status != "__missing__" else [],
+                                "error": err, "cleaned": cleaned, "n_clean_calls": n_clean, "clean_ok": clean_ok, "turned": state["turned"],
+                                "paused": state["toggle_at_sleep"], "paused_end": None if toggle is None else toggle.is_on(),
+                                "delays": dt, "now2": state["now2"] if state["now2"] is not None else now,
+                                "reached_sleep": state["now2"] is not None, "slept": state["slept"],
+                                "interrupted": state["unslept"] not in (None, "n/a"), "touched": touch_payload is not None,
+                                "touch_payload": touch_payload, "offgrid": offgrid, "n_patches": len(state["patches"])})
+        finally:
+            peering.patching, peering.aiotime = o_patching, o_aiotime  # type: ignore[assignment]
+            peering.clean, peering.touch = o_clean, o_touch  # type: ignore[assignment]
+
+    simloop.run_sim(main, wall_limit=wall_limit)
+    return {"results": results}
+
+
+def run_ka(batch: dict, wall_limit: float = 60.0) -> dict:
+    """The real `keepalive` loop (one iteration, forced jitter) and the real `touch` (payload only)."""
+    from kopf._cogs.configs import configuration
+    from kopf._cogs.structs import references
+    from kopf._core.engines import peering
+    from ..sim import simloop
+    out: dict[str, list] = {"ka": [], "touch": []}
+    res = references.Resource("kopf.dev", "v1", "clusterkopfpeerings", namespaced=False)
+
+    class _Stop(Exception):
+        pass
+
+    async def main() -> None:
+        loop = asyncio.get_running_loop()
+        o_touch, o_random, o_asyncio, o_patching = peering.touch, peering.random, peering.asyncio, peering.patching
+        try:
+            for lifetime, jitter, how in batch.get("ka", []):
+                calls: list[Any] = []
+                sleeps: list[Any] = []
+                bounds: list[Any] = []
+
+                async def touch(**kw: Any) -> None:
+                    calls.append(kw.get("lifetime"))
+
+                def randint(a: int, b: int) -> int:
+                    bounds.append([a, b])
+                    return jitter
+
+                async def sleep(d: float, *a: Any, **k: Any) -> None:
+                    sleeps.append(d)
+                    if how == "cancel":
+                        raise asyncio.CancelledError()
+                    raise _Stop()
+
+                peering.touch = touch  # type: ignore[assignment]
+                peering.random = _Proxy(o_random, randint=randint)  # type: ignore[assignment]
+                peering.asyncio = _Proxy(o_asyncio, sleep=sleep)  # type: ignore[assignment]
+                settings = configuration.OperatorSettings()
+                settings.peering.lifetime = lifetime
+                ended = None
+                try:
+                    await peering.keepalive(namespace=None, resource=res, identity=peering.Identity("me"), settings=settings)
+                except _Stop:
+                    ended = "stop"
+                except asyncio.CancelledError:
+                    ended = "cancelled"
+                out["ka"].append({"lifetime": lifetime, "jitter": jitter, "how": how, "sleeps": sleeps, "touches": calls,
+                                  "bounds": bounds, "ended": ended})
+            peering.touch, peering.random, peering.asyncio = o_touch, o_random, o_asyncio  # type: ignore[assignment]
+            payloads: list[Any] = []
+
+            async def patch_obj(**kw: Any) -> Any:
+                payloads.append(json.loads(json.dumps(dict(kw["patch"]))))
+                return {}, None
+
+            peering.patching = _Proxy(o_patching, patch_obj=patch_obj)  # type: ignore[assignment]
+            for prio, lifetime, arg in batch.get("touch", []):
+                await asyncio.sleep(1 / TPS)
+                settings = configuration.OperatorSettings()
+                settings.peering.lifetime = lifetime
+                settings.peering.priority = prio
+                payloads.clear()
+                now = ticks(loop.time())
+                err = None
+                try:
+                    await peering.touch(identity=peering.Identity("me"), settings=settings, resource=res, namespace=None, lifetime=arg)
+                except Exception as e:  # noqa: BLE001
+                    err = ERR_ENUM.get(type(e).__name__, "other:" + type(e).__name__)
+                val: Any = "__none__"
+                if payloads:
+                    val = (payloads[0].get("status") or {}).get("me", "__nokey__")
+                    if isinstance(val, dict) and "lastseen" in val:
+                        val = dict(val)
+                        val["lastseen"] = iso_ticks(val["lastseen"])
+                out["touch"].append({"prio": prio, "lifetime": lifetime, "arg": arg, "now": now, "value": val, "error": err,
+                                     "n": len(payloads)})
+        finally:
+            peering.touch, peering.random, peering.asyncio, peering.patching = o_touch, o_random, o_asyncio, o_patching  # type: ignore
+
+    simloop.run_sim(main, wall_limit=wall_limit)
+    return out
+
 # =================================================================================================
 def worker_main() -> None:
     import logging
@@ -536,7 +805,14 @@ def worker_main() -> None:
         sys.stderr.write(f"@@BEGIN {item['i']}\n")
         sys.stderr.flush()
         try:
-            out = {"i": item["i"], "trace": run_history(item["sc"], wall_limit=wall)}
+            sc = item["sc"]
+            kind = sc.get("kind", "history")
+            if kind == "direct":
+                out = {"i": item["i"], "trace": run_direct(sc, wall_limit=wall)}
+            elif kind == "ka":
+                out = {"i": item["i"], "trace": run_ka(sc, wall_limit=wall)}
+            else:
+                out = {"i": item["i"], "trace": run_history(sc, wall_limit=wall)}
         except Exception as e:  # noqa: BLE001
             import traceback
             out = {"i": item["i"], "harness_error": f"{type(e).__name__}: {e}", "tb": traceback.format_exc()[-3000:]}
